@@ -31,7 +31,9 @@ Conventions of the generated Lean (fixed, independent of the hand model):
   * `e.unwrap()` in `let v = e.unwrap();` makes the whole function `Option`-valued: `none` = panic;
   * associated constants of the macro (`Self::get_coeff_b()`) become leading parameters;
   * `u64` values are Lean `UInt64`; `usize` values are `Nat` (only `%` small constants is applied);
-  * `TABLE[i]` is `tbl.getD i 0` on the model's table (all indices are `power % len`).
+  * `TABLE[i % n]` is `tbl.getD (i % n) 0` on the model's table; `n` must not exceed the length N in
+    the declaration `const TABLE: [T; N]` of fq.rs, and `tbl.length = N` is emitted as a theorem
+    (so the default `0` is never used, as the Rust index never panics).
 
 Rust subset understood (anything else raises ExtractError naming the function and the statement):
   statements   let [mut] x = E;  let (a, b, c) = E;  P.m(args);  P = E;  x >>= n;  x <<= n;
@@ -686,12 +688,15 @@ BUILTIN_ARGTYPES = {"add_assign": ["same"], "sub_assign": ["same"], "mul_assign"
                     "frobenius_map": ["Nat"]}
 
 # Rust constants: name -> (Lean text, type[, element type for tables])
+# name -> [model table, element type, length]; the length is read from the declaration in fq.rs
+# (`pub const NAME: [T; N]`) by translate() and re-stated as a theorem in the generated file
 TABLES = {
-    "FROBENIUS_COEFF_FQ2_C1": ("PP.Fq2.frobCoeffC1", "Fq", 2),
-    "FROBENIUS_COEFF_FQ6_C1": ("PP.Fq6.frobCoeffC1", "Fq2", 6),
-    "FROBENIUS_COEFF_FQ6_C2": ("PP.Fq6.frobCoeffC2", "Fq2", 6),
-    "FROBENIUS_COEFF_FQ12_C1": ("PP.Fq12.frobCoeffC1", "Fq2", 12),
+    "FROBENIUS_COEFF_FQ2_C1": ["PP.Fq2.frobCoeffC1", "Fq", None],
+    "FROBENIUS_COEFF_FQ6_C1": ["PP.Fq6.frobCoeffC1", "Fq2", None],
+    "FROBENIUS_COEFF_FQ6_C2": ["PP.Fq6.frobCoeffC2", "Fq2", None],
+    "FROBENIUS_COEFF_FQ12_C1": ["PP.Fq12.frobCoeffC1", "Fq2", None],
 }
+FQ_RS = "src/bls12_381/fq.rs"
 CONSTS = {
     "BLS_X": ("(UInt64.ofNat Gen.BLS_X)", "U64"),
     "BLS_X_IS_NEGATIVE": ("Gen.BLS_X_IS_NEGATIVE", "Bool"),
@@ -940,8 +945,8 @@ class Translator:
                 ix = e[2]
                 if not (ix[0] == "bin" and ix[1] == "%" and ix[3][0] == "num"):
                     self.fail("table index must have the form `i %% n`", e)
-                if ix[3][1] > n:
-                    self.fail("index modulus %d exceeds the length %d of the table" % (ix[3][1], n), e)
+                if n is None or ix[3][1] > n or ix[3][1] == 0:
+                    self.fail("index modulus %d is not within the length %s of the table" % (ix[3][1], n), e)
                 s, _ = self.expr(ix, env, "Nat")
                 return "%s.getD %s 0" % (tbl, self.paren(s)), elt
             self.fail("indexing of something that is not a known table", e)
@@ -1144,6 +1149,8 @@ class Translator:
             return [Line(ind, "", "fn %s(..) { .. }   (translated separately)" % s[1])] + \
                 self.seq(rest, tail, env, k, ind)
         if kind == "return":
+            if rest or tail is not None:
+                self.fail("statements after `return`", s)
             return self.ret_k(env, s[1], ind, cmt)
         if kind == "let":
             return self.let_stmt(s, rest, tail, env, k, ind, cmt)
@@ -1657,9 +1664,23 @@ def translate(repo_dir):
                       "lines": [src.count("\n", 0, s0) + 1, src.count("\n", 0, b) + 1],
                       "sha256": hashlib.sha256(raw[s0:b + 1].encode()).hexdigest()})
 
+    out = [HEADER]
+    raw, src = load(FQ_RS)
+    out.append("/-! ## lengths of the coefficient tables (src/bls12_381/fq.rs); every `TABLE[i % n]` below has `n ≤ length` -/\n")
+    for tname in sorted(TABLES):
+        ms = list(re.finditer(r"\bconst\s+%s\s*:\s*\[\s*(\w+)\s*;\s*(\d+)\s*\]\s*=" % tname, src))
+        if len(ms) != 1:
+            raise ExtractError("%s: declaration of table %s not found" % (FQ_RS, tname))
+        if ms[0].group(1) != TABLES[tname][1]:
+            raise ExtractError("%s: table %s has element type %s" % (FQ_RS, tname, ms[0].group(1)))
+        TABLES[tname][2] = int(ms[0].group(2))
+        items.append({"item": "arith:table:" + tname, "file": FQ_RS,
+                      "lines": [src.count("\n", 0, ms[0].start()) + 1, src.count("\n", 0, ms[0].end()) + 1],
+                      "sha256": hashlib.sha256(raw[ms[0].start():ms[0].end()].encode()).hexdigest()})
+        out.append("/-- `%s` -/" % " ".join(src[ms[0].start():ms[0].end() - 1].split()))
+        out.append("theorem tableLen_%s : %s.length = %d := rfl\n" % (tname, TABLES[tname][0], TABLES[tname][2]))
     registry = {}
     bundled = set()
-    out = [HEADER]
     cur_file = None
     generic_on = False
     names = []
